@@ -64,7 +64,7 @@ def all_leaves_load_errors(e) -> bool:
 def oracle_outcome(ctx: Ctx, out, case, what_prefix):
     """the property itself on one real outcome"""
     if out["r"] == "escape":
-        sig = f"escape:{out['exc']}:{case.get('kind', '?')}" + (":class-object-datum" if case.get("datum_is_class") else "")
+        sig = "escape:class-object-datum" if case.get("datum_is_class") else f"escape:{out['exc']}:{case.get('kind', '?')}"
         ctx.fail(sig, f"{what_prefix}: {out['exc']} escaped instead of a LoadError", case)
         return False
     if out["r"] == "err" and not all_leaves_load_errors(out["e"]):
